@@ -518,7 +518,7 @@ def check(prop, tier):
                     lines_out.append('VIOLATION property=%s replay=%s obligation=%s.bounded (bounded stand-in; proof not applicable: %s)' % (
                         prop, path, u, (structural[0]['undecided'] or '')[:120]))
                 exit_code = 1
-            elif len(structural) == len(undecided) and not [r for r, f in failed]:
+            elif len(structural) == len(undecided) and not violations:
                 # every undecided group is a structural one and the bounded stand-in of all its units
                 # with a harness passed: the property held on everything explored, *bounded only*
                 import cexsearch as _cx
